@@ -185,7 +185,13 @@ PROPS = {
           "growth-outside of every tick, every position record incl. unclaimed, GetClaimableSpreadRewards of every position, fee balances) and the uptime-incentive state (six "
           "accumulators, tick uptime trackers, incentive records' remaining, every position's six uptime records, GetClaimableIncentives collected/forfeited, incentive balances, "
           "LastLiquidityUpdate) are compared with the Lean model (`clp fdump`, `clp idump`); incentive ops are model ops (`clp incentive/advance/sync/icollect`); oracles after every op: spread no-loss (balance - claimable <= dust), incentives (paid+claimable <= in-range time x rate x share, remaining, unmet uptime), "
-          "and the fairness/solvency oracles on every solvency pass; clmath: per-step growth arithmetic; distinct = distinct op lines",
+          "and the fairness/solvency oracles on every solvency pass; incentive records that RUN DRY (classes dry / tiny / big / grain = a few units of 10^-18 per unit of liquidity on "
+          "unscaled pools with liquidity >= 1e19 / several records of one denom and uptime ending at different moments / future starts), block-time jumps aimed exactly at, 1 ns / 1 s "
+          "past, far past and just short of the moment a record is exhausted, idle jumps up to 90 days, sub-second advances, zero-liquidity gaps before the end; amount magnitude class per "
+          "history (x1, x1e6, x1e12: liquidity from < 1 to >= 1e24 on both sides of the incentive scaling migration); zero-tolerance oracles on a branch synced to the block time: per denom "
+          "paid out + claimable + forfeited <= emitted (keeper records) and <= sum of min(rate x qualifying time, amount) (engine's time log), + remaining <= deposited, incentive balance >= "
+          "claimable + forfeited + remaining; per accumulator update (incentives:sync-*): credited per liquidity x liquidity <= record decrease x factor, decrease <= rate x elapsed; "
+          "clmath: per-step growth arithmetic; distinct = distinct op lines",
   "trusted_base": ["osmoutils/accum as proved in C15", "cosmos-sdk bank", "C07 pool invariant (active liquidity, ticks = position boundaries, price-tick agreement)"],
   "assumptions": ["spread rewards: theorems over the state machine Model/CLFees.lean (= Model/CLPool.lean + accumulator, tick growth-outside, position records), tied to the keeper "
                   "by full-state comparison after every op; proved for all histories: growth-inside = growth while in range (crossings both directions, in-bucket moves, tick "
@@ -309,7 +315,11 @@ PROPS = {
               {"name": "cl", "kind": "app", "n": {"quick": 1500, "thorough": 20000}, "shards": {"quick": 4, "thorough": 16}, "env": NO_EXPORT_IMPORT}],
   "rule": "clmath: stratified (liquidity, sqrt-price pairs from real ticks, remaining amounts around the amount needed to reach the target, all authorised spread factors) for "
           "amount deltas, next-price functions and the four within-bucket step functions; cl: histories on one concentrated pool with swaps of both kinds/directions from 1 unit "
-          "to draining over overlapping/nested/abutting/gapped positions; distinct = distinct op lines",
+          "to draining over overlapping/nested/abutting/gapped positions; directed swap classes: `limit` (more than the pool can absorb: partial fill at the min/max sqrt price, all "
+          "four kinds, executed in the history and as probes on discarded branches of every young state) and `land` (the amount that ends EXACTLY on the n-th initialised tick ahead, n=1..3, "
+          "from ComputeMaxInAmtGivenMaxTicksCrossed / CalcAmount0Delta / CalcAmount1Delta, +-1 unit); opening scripts that drain a lone full-range position of small liquidity to the price "
+          "limit and back several times; spread factor zero in a third of the histories; oracle swap:* = integer amounts of EVERY executed swap against the exact rational curve between its "
+          "start and end sqrt price over the ticks traversed, one-sided with zero tolerance (charged >= exact in / (1 - spread factor), paid <= exact out); distinct = distinct op lines",
   "trusted_base": ["osmomath arithmetic as proved in C12", "tick conversions as proved in C14"],
   "assumptions": ["whole-swap theorems (`swap_vs_exact_curve_reachable`, `swap_shortfall_bounded`, `there_and_back_no_profit`) hold for every state satisfying the C07 invariant, "
                   "hence for every reachable state with tick spacing > 0 and spread factor in [0, 1/2] (`SpfOK`; covers every authorised spread factor); Props/C03 runs with the "
@@ -349,7 +359,9 @@ PROPS = {
   "fingerprints": ["CL.*"],
   "engines": [{"name": "cl", "kind": "app", "n": {"quick": 2000, "thorough": 30000}, "shards": {"quick": 4, "thorough": 16}, "env": NO_EXPORT_IMPORT}],
   "rule": "histories on one concentrated pool through the real keeper (create over overlapping/nested/abutting/gapped ranges incl. exactly on the current tick and at the range "
-          "ends, add, partial/full withdraw, swaps of both kinds/directions from 1 unit to draining, transfers); the bookkeeping oracle runs after EVERY op; distinct = distinct op lines",
+          "ends, add, partial/full withdraw, swaps of both kinds/directions from 1 unit to draining, swaps that end EXACTLY on an initialised tick (n = 1..3 ticks ahead, +-1 unit, both kinds "
+          "and directions, followed by further swaps / LP ops / the everybody-withdraws pass), partial fills at the price limit, transfers); the bookkeeping oracle runs right after EVERY op; "
+          "distinct = distinct op lines",
   "trusted_base": ["tick conversions as proved in C14/C14Mono", "osmomath arithmetic as proved in C12"],
   "assumptions": ["theorems are over the pool state machine Model/CLPool.lean, tied to the keeper by full-state comparison (pool, all ticks, all positions, balances) after ops; "
                   "positions with an underlying lock, CosmWasm hooks and the governance tick-spacing change are outside the model",
@@ -638,7 +650,9 @@ PROPS = {
               {"name": "clmath", "kind": "pure", "n": {"quick": 20000, "thorough": 300000}, "shards": {"quick": 2, "thorough": 16}}],
   "rule": "cl: histories on one concentrated pool through the real keeper by three accounts (create/add/partial+full withdraw/swaps of both kinds and directions from 1 unit to "
           "draining/collects/incentive creation/time advances/transfers); the solvency oracle (everybody claims and withdraws everything on a discarded branch; claimable sums <= "
-          "balances) runs every few ops and at the end of every history; distinct = distinct op lines",
+          "balances) runs every few ops, after every directed sequence (landing exactly on a tick, records running dry, draining to the price limit) and at the end of every history; the "
+          "incentive address must cover claimable + forfeited + the records' remaining amounts with zero tolerance after every op (incl. records that run dry between two accumulator "
+          "updates, liquidity 1 .. >= 1e24, both sides of the incentive scaling migration); distinct = distinct op lines",
   "trusted_base": ["C03 rounding theorems", "C07 bookkeeping invariant", "cosmos-sdk bank"],
   "assumptions": ["theorems cover the PRINCIPAL balances of the pool address and the spread-fee transfers over the pool state machine (bit-exact with the keeper); the spread-reward "
                   "balance covering what is claimable is C08.spread_reward_solvency, the incentive address balance covering every claim and every record's remaining amount is "
